@@ -1,5 +1,5 @@
 use rusty_common::AtPos;
-use rusty_parser::{CaseExpression, ExpressionPos};
+use rusty_parser::{CaseExpression, ExpressionPos, ExpressionType, HasExpressionType, SelectCase};
 
 use super::post_conversion_linter::PostConversionLinter;
 use crate::core::{CanCastTo, LintError, LintErrorPos};
@@ -7,6 +7,23 @@ use crate::core::{CanCastTo, LintError, LintErrorPos};
 pub struct SelectCaseLinter;
 
 impl PostConversionLinter for SelectCaseLinter {
+    fn visit_select_case(&mut self, s: &SelectCase) -> Result<(), LintErrorPos> {
+        // only numbers and strings can be compared
+        match s.expr.expression_type() {
+            ExpressionType::BuiltIn(_) | ExpressionType::FixedLengthString(_) => {}
+            _ => {
+                return Err(LintError::TypeMismatch.at(&s.expr));
+            }
+        }
+        for case_block in &s.case_blocks {
+            self.visit_case_block(case_block, &s.expr)?;
+        }
+        match &s.else_block {
+            Some(x) => self.visit_statements(x),
+            None => Ok(()),
+        }
+    }
+
     fn visit_case_expression(
         &mut self,
         case_expr: &CaseExpression,
